@@ -266,6 +266,8 @@ def run(ctx):
     # model histories (contour, in-place change of the model object, contour on the same grid): the coordinates
     # belong to the model as it is
     cases += H.history_cases(vc, np.random.default_rng(ctx.seed * 29 + 8), cfgs, ctx.pick(5, 40))
+    # float32-typed limits / cell sizes (coordinates are looked up among the centres the contour reports)
+    cases += H.narrow_float_cases(vc, np.random.default_rng(ctx.seed * 31 + 9), cfgs, ctx.pick(4, 30), 0)
     # integer-typed grids (int / np.int64 limits, int or mixed cell sizes): the returned coordinates must still
     # be the centres of the boundary cells
     cases += H.integer_grid_cases(vc, np.random.default_rng(ctx.seed * 23 + 6), cfgs, ctx.pick(6, 40))
